@@ -8,7 +8,7 @@ LEVEL_NOTE_REF = ("Trusted base: the refchess mailbox model (~600 lines, no code
 
 CHECKS = {
  "C01": dict(tech="property-based differential testing: lockstep random playouts vs an independent reference move generator (proptest, shrinking)",
-             text="Exploration: every position visited by generated playouts (named roots, synthetic placements, motif constructors for en-passant/pin/castling/double-check/promotion/capacity interactions) has its generated move list compared as a set with an independent mailbox reference, and is_legal is queried on all legal moves, near misses, generated triples and periodically all 20480 triples. Sampled, with per-class coverage counters in evidence.",
+             text="Exploration: every position visited by generated playouts (named roots, synthetic placements, motif constructors for en-passant/pin/castling/double-check/promotion/capacity interactions) has its generated move list compared as a set with an independent mailbox reference, and is_legal is queried on all legal moves, near misses, generated triples and periodically all 20480 triples. A directed exhaustive family covers every pin geometry. Sampled otherwise, with per-class coverage counters in evidence.",
              ref="4 C01", note=LEVEL_NOTE_REF),
  "C02": dict(tech="property-based differential testing: make-move vs reference successor, plus refusal/no-mutation checks on generated illegal triples",
              text="Exploration: every played move and periodically every legal move is applied with move_new/move_mut/move_into and compared field by field (64 squares, turn, clocks, rights and marker via text, bitboard partition) with the reference successor; generated illegal triples must be refused without touching receiver or output.",
@@ -17,7 +17,7 @@ CHECKS = {
              text="Exploration: after every generated ply the incrementally updated board is compared with the same position parsed from the reference FEN (and built with the builder): legal sets, check, state, hash, text and both debug renderings (which expose cached pin/check squares); in_check/state are compared with the reference classification. Check mechanisms are forced by generator bias classes and counted.",
              ref="4 C03", note=LEVEL_NOTE_REF),
  "C05": dict(tech="property-based round-trip testing (board -> FEN -> board, canonical FEN -> board -> FEN) against an independent FEN writer",
-             text="Exploration: every board visited by generated playouts must print exactly the reference writer's canonical FEN, re-parse to an equal board (clocks, hash, debug forms), and every canonical FEN must reproduce itself; parser/builder/standard() agreement; a directed product of all 16 rights subsets x 17 marker states x clock values.",
+             text="Exploration: every board visited by generated playouts must print exactly the reference writer's canonical FEN, re-parse to an equal board (clocks, hash, debug forms), and every canonical FEN must reproduce itself; parser/builder/standard() agreement including generated builder histories with rejected placements and removals; a directed product of all 16 rights subsets x 17 marker states x clock values.",
              ref="4 C05", note=LEVEL_NOTE_REF),
 }
 
@@ -40,10 +40,10 @@ CHECKS.update({
              text="Exploration, exhaustive: every one of the ~29k edges of the embedded book is checked for legality against the reference model and acceptance by move_new from the standard position; every node's iterator terminates; the checked-profile run traps any out-of-table index.",
              ref="4 C17", note=LEVEL_NOTE_REF),
  "C18": dict(tech="model-based testing against a [bool;64] set model: exhaustive structured boards + generated boards + proptest iterator op lists",
-             text="Exploration: every listed operation is compared with a plain set model on all empty/full/single/pair/file/rank boards and complements, on generated boards, and iterator op lists (next, nth incl. n >= 64, skip, step_by, clone, count, last) are checked against a Vec model with the remainder compared after every op.",
+             text="Exploration: every listed operation is compared with a plain set model on all empty/full/single/pair/file/rank boards and complements, on generated boards, collection from repeated squares/boards and through zero-lower-bound adaptors, and iterator op lists (next, nth incl. n >= 64, skip, step_by, clone, count, last) are checked against a Vec model with the remainder compared after every op.",
              ref="4 C18", note=LEVEL_NOTE_ENUM),
  "C19": dict(tech="exhaustive enumeration of byte strings over finite alphabets against an independent accept predicate; round trips; iterator op lists vs slice iterators",
-             text="Exploration, exhaustive on 64 squares, 256 one-byte, 65536 two-byte strings, all 4-/5-byte strings over the move alphabet, all 4096 moves in every case/separator spelling, and all short op lists on the five enum iterators; generated byte strings of other lengths.",
+             text="Exploration, exhaustive on 64 squares, 256 one-byte, 65536 two-byte strings, ALL 2^32 four-byte move strings, five-byte strings over the move alphabet plus per-position sweeps over all 256 byte values, all 4096 moves in every case/separator spelling, and all short op lists on the five enum iterators; generated byte strings of other lengths.",
              ref="4 C19", note=LEVEL_NOTE_ENUM),
  "C20": dict(tech="schedule enumeration with a harness-owned interleaving of two OS threads against a state model (all schedules of length <= 4/5, proptest beyond), plus a schedule-independent invariant under real parallelism",
              text="Exploration, exhaustive over all operation-granularity interleavings of length <= 4 (quick) / 5 (thorough) of the eight operations on two threads; after every step both threads' is_enabled() must be explained by the model (global flag + admissible override states). Longer schedules are generated; a free-running mode checks the override invariant under real parallelism.",
@@ -66,22 +66,22 @@ CHECKS.update({
              text="Exploration: generated scripts over every operation family the property names (construct via parser/builder incl. pawns on back ranks and clocks up to u16::MAX, generate/mask/iterate/remove, apply, hash, print in every format, perft, search with counting timeouts, repetition table, book descent, bitboard iterators with n up to usize::MAX) plus directed boundary families (18-entry capacity positions, 218-move position, 16-bit clocks, >255 repetitions, 65536+ cheap deepening passes) run in a profile where unchecked fast paths, debug assertions and arithmetic overflow trap. Any panic, abort or signal is a violation.",
              ref="4 C07", note="Trusted base: rustc's debug-assertion / overflow-check instrumentation and std's unsafe-precondition checks; proptest. UB that neither traps in the checked profile nor crashes is not observable (stated in DESIGN.md section 7)."),
  "C11": dict(tech="fault/schedule enumeration over the timeout-expiry instant k with a counting Timeout (every k up to the second pass boundary, boundaries +-3, generated k), legality oracle from the reference model",
-             text="Exploration: for each generated position one instrumented run yields the poll counts at which deepening passes start; the search is then re-run with the limit expiring at poll k for every k up to min(s_2, 300/800), around every boundary and at generated values. For each k: returns within a poll bound after expiry, no panic, move None or reference-legal, None iff no legal move, Some once the first pass finished, Some monotone in k.",
+             text="Exploration: for each generated position one instrumented run yields the poll counts at which deepening passes start; the search is then re-run with the limit expiring at poll k for every k up to min(s_2, 300/800), around every boundary and at generated values. For each k: returns within a poll bound after expiry, no panic (also with INFO/DEBUG logging enabled for small k and around boundaries), move None or reference-legal, None iff no legal move, Some once the first pass finished or whenever the search returns by itself, Some monotone in k. If the engine's pass log line is missing the boundaries are recovered by bisection over public results.",
              ref="4 C11", note=LEVEL_NOTE_ENGINE),
  "C12": dict(tech="property-based testing with constructed mating nets and harvested positions; oracle = reference enumeration of mating moves",
-             text="Exploration: positions with and without a mate in one (mating-net constructors, sparse placements, playouts; half-move clock at 96..100; mated position pre-filled twice in the repetition table) are searched with the limit at the first/second pass boundary and without limit; a mating move with the mover's MateIn(1) score must come back when one exists, the score must never appear otherwise, and it must always come with a move that mates.",
+             text="Exploration: positions with and without a mate in one (mating-net constructors, sparse placements, playouts; half-move clock at 96..100; mated position pre-filled twice in the repetition table) are searched with the limit at the first/second pass boundary and without limit; a mating move with the mover's MateIn(1) score must come back when one exists, the score must never appear otherwise, and it must always come with a move that mates. Descendants with exactly one legal move (preferring those where it mates) and tactical back-rank positions are harvested/constructed because random generation does not reach them.",
              ref="4 C12", note=LEVEL_NOTE_ENGINE),
  "C13": dict(tech="metamorphic testing: colour-mirror relation on scores, depth by depth under each side's own pass boundaries",
-             text="Exploration: each generated position without a promotion move at the root and its colour mirror are searched to every depth both complete within the poll cap; the committed scores must be negations of each other (mate-in-n swaps colour). Moves are not compared.",
+             text="Exploration: each generated position without a promotion move at the root and its colour mirror are searched to every depth both complete within the poll cap; the committed scores must be negations of each other (mate-in-n swaps colour); when a mate score ends the deepening the final scores and pass counts are compared as well. Half of the positions are mating nets, sparse material and tactical back-rank positions. Moves are not compared.",
              ref="4 C13", note=LEVEL_NOTE_ENGINE),
  "C15": dict(tech="model-based (stateful) testing of the built plugin through its stable ABI: generated set-board / move / shuffle / evaluate sequences against the reference position and an occurrence map",
-             text="Exploration: libchess_bot.so built from the working tree is driven through chess_api::ChessEngine with generated op lists including reversible manoeuvres that create third and later occurrences, illegal triples, set_board, evaluate with counting timeouts, and a directed >255-repetition shuffle. Validity, reported board, threefold flag (exactly on the third occurrence under the calibrated counting reading) and legality of the proposed move are compared with the model.",
+             text="Exploration: libchess_bot.so built from the working tree is driven through chess_api::ChessEngine with generated op lists including reversible manoeuvres that create third and later occurrences, illegal triples and near misses of legal moves, set_board (also with the current position), evaluate with counting timeouts, and a directed >255-repetition shuffle. Validity, reported board, threefold flag (exactly on the third occurrence under the calibrated counting reading) and legality of the proposed move are compared with the model.",
              ref="4 C15", note=LEVEL_NOTE_REF + " abi_stable's loader; the occurrence-counting reading is calibrated at run start rather than assumed."),
 })
 
 CHECKS.update({
  "C04": dict(tech="exhaustive key-table enumeration + metamorphic testing (transposing move orders, single-component variants, clock-only variants) + model-based test of the repetition table",
-             text="Exploration, exhaustive for the 794 keys (non-zero, pairwise distinct); generated playouts compare incrementally maintained hashes with from-scratch hashes, reorderings of four plies that the reference accepts and that reach the same key must give equal boards and equal zobrist/std hashes, single-component variants must be unequal and hash differently, clock-only variants must be equal and hash equally, and ThreeFold::add/get is compared with a map keyed by the reference position key.",
+             text="Exploration, exhaustive for the 794 keys (non-zero, pairwise distinct); generated playouts compare incrementally maintained hashes with from-scratch hashes, boards assembled by generated builder histories (rejected placements, removals) must hash like the parser's board, reorderings of four plies that the reference accepts and that reach the same key must give equal boards and equal zobrist/std hashes, single-component variants must be unequal and hash differently, clock-only variants must be equal and hash equally, and ThreeFold::add/get is compared with a map keyed by the reference position key.",
              ref="4 C04", note=LEVEL_NOTE_REF),
 })
 
